@@ -24,9 +24,19 @@ fn mism_suffix() -> String {
     }
 }
 
+thread_local! {
+    /// set for requests that carry "brief": true - the tree is built and dropped, but not sent (totality checks feed inputs
+    /// nested tens of thousands deep, whose JSON the driver's decoder could not read back)
+    pub static BRIEF: std::cell::Cell<bool> = const { std::cell::Cell::new(false) };
+}
+
 pub fn ok_tree<T: Dump>(t: &T) -> String {
     let mut o = String::from("{\"ok\":");
-    t.dump(&mut o);
+    if BRIEF.with(|b| b.get()) {
+        o.push_str("true");
+    } else {
+        t.dump(&mut o);
+    }
     o.push_str(&mism_suffix());
     #[cfg(rustpython_parser_verif)]
     o.push_str(&crate::ops_parse::hook_suffix());
@@ -114,6 +124,7 @@ fn typed_one<T: Parse + Dump>(src: &str, k: u32, how: &str) -> String {
 
 pub fn dispatch(op: &str, req: &Value) -> Option<String> {
     let src = req_str(req, "src");
+    BRIEF.with(|b| b.set(req_bool(req, "brief")));
     let k = req_u64(req, "k") as u32;
     let fuel = {
         let f = req_u64(req, "fuel");
